@@ -178,7 +178,7 @@ type entry struct {
 	sparse           bool // archive/tar expanded it from a GNU / PAX sparse representation
 	name, kind, link string
 	body             []byte
-	sum              string // Gallina term of the recorded checksum
+	pax              map[string]string // header.PAXRecords verbatim: the recorded checksum is decoded by the model
 }
 
 // byte strings are printed as one hex literal decoded in Coq (Corr/C05.hx): far cheaper to parse than a list of numerals
@@ -187,24 +187,6 @@ func hb(b []byte) string {
 		return "[]"
 	}
 	return `(hx "` + hex.EncodeToString(b) + `")`
-}
-
-func recsum(h *tar.Header) string {
-	v, ok := h.PAXRecords["APK-TOOLS.checksum.SHA1"]
-	if !ok {
-		return "SumNone"
-	}
-	var d []byte
-	var err error
-	if strings.HasPrefix(v, "Q1") {
-		d, err = base64.StdEncoding.DecodeString(strings.TrimPrefix(v, "Q1"))
-	} else {
-		d, err = hex.DecodeString(v)
-	}
-	if err != nil {
-		return "SumBad"
-	}
-	return "(SumSome " + hb(d) + ")"
 }
 
 func untar(t []byte) ([]entry, bool) {
@@ -218,7 +200,7 @@ func untar(t []byte) ([]entry, bool) {
 		if err != nil {
 			return nil, false
 		}
-		e := entry{name: h.Name, sum: recsum(h), sparse: h.Typeflag == tar.TypeGNUSparse}
+		e := entry{name: h.Name, pax: h.PAXRecords, sparse: h.Typeflag == tar.TypeGNUSparse}
 		for k := range h.PAXRecords {
 			if strings.HasPrefix(k, "GNU.sparse.") {
 				e.sparse = true
@@ -260,11 +242,12 @@ type tables struct {
 	tarIDs       map[string][]byte
 	names        map[string]bool // names of regular files and hard links of everything served
 	bodies       map[string][]byte // file content -> id (contents are abstract for the model)
+	b64          map[string]bool   // strings the model asks base64 for (per-file records in the Q1 form)
 }
 
 func newTables() *tables {
 	return &tables{sha1: map[string][]byte{}, sha256: map[string][]byte{}, first: map[string]string{}, ctl: map[string]string{},
-		gunzip: map[string]string{}, untar: map[string]string{}, ids: map[string][]byte{}, tarIDs: map[string][]byte{}, names: map[string]bool{}, bodies: map[string][]byte{}}
+		gunzip: map[string]string{}, untar: map[string]string{}, ids: map[string][]byte{}, tarIDs: map[string][]byte{}, names: map[string]bool{}, bodies: map[string][]byte{}, b64: map[string]bool{}}
 }
 
 // the id of a file content; the SHA-1 row of a content is keyed by its id
@@ -341,8 +324,21 @@ func (t *tables) data(members [][]byte) {
 				if e.kind == "FReg" || e.kind == "FLink" || e.kind == "FOther" {
 					t.names[e.name] = true
 				}
-				fs = append(fs, fmt.Sprintf("{| f_name := %s; f_kind := %s; f_body := %s; f_sum := %s; f_link := %s; f_sparse := %s |}",
-					gal.Str(e.name), e.kind, hb(t.body(e.body)), e.sum, gal.Str(e.link), gal.Bool(e.sparse)))
+				keys := make([]string, 0, len(e.pax))
+				for k := range e.pax {
+					keys = append(keys, k)
+				}
+				sort.Strings(keys)
+				var recs []string
+				for _, k := range keys {
+					recs = append(recs, gal.Pair(gal.Str(k), gal.Str(e.pax[k])))
+					// base64.StdEncoding.DecodeString on what follows a "Q1" prefix, for the model's oracle
+					if v := e.pax[k]; strings.HasPrefix(v, "Q1") {
+						t.b64[v[2:]] = true
+					}
+				}
+				fs = append(fs, fmt.Sprintf("{| r_name := %s; r_kind := %s; r_body := %s; r_pax := %s; r_link := %s; r_sparse := %s |}",
+					gal.Str(e.name), e.kind, hb(t.body(e.body)), gal.List(recs), gal.Str(e.link), gal.Bool(e.sparse)))
 			}
 			t.untar[string(tid)] = "(Some " + gal.List(fs) + ")"
 		}
@@ -457,6 +453,15 @@ type observed struct {
 	desc  string
 	files [][2]string
 	err   string
+}
+
+func sortedKeys(m map[string]bool) []string {
+	ks := make([]string, 0, len(m))
+	for k := range m {
+		ks = append(ks, k)
+	}
+	sort.Strings(ks)
+	return ks
 }
 
 func galHandle(url, chk string) string {
@@ -662,6 +667,14 @@ func runCase(root string, n int, sc *seqCase) gal.Case {
 		steps = append(steps, fmt.Sprintf("{| s_new_process := %s; s_cache := %s; s_drop_tar := %s; s_lazy := %s; s_http := %s; s_offline := %s; s_handle := %s; s_whole := %s; s_served := %s; o_out := %s |}",
 			gal.Bool(s.NewProcess), cache, gal.Bool(s.DropTar), gal.Bool(s.Lazy), gal.Bool(s.Http), gal.Bool(s.Offline && s.Cache >= 0), galHandle(termURL, s.Checksum), whole, srv, out))
 	}
+	for _, k := range sortedKeys(t.b64) {
+		d, err := base64.StdEncoding.DecodeString(k)
+		r := "None"
+		if err == nil {
+			r = "(Some " + hb(d) + ")"
+		}
+		b64rows = append(b64rows, gal.Pair(gal.Str(k), r))
+	}
 	term := fmt.Sprintf("{| q_sha1 := %s; q_sha256 := %s; q_b64 := %s; q_first := %s; q_ctl := %s; q_gunzip := %s; q_untar := %s; q_steps := %s |}",
 		galBytesTable(t.sha1), galBytesTable(t.sha256), gal.List(b64rows), galTermTable(t.first), galTermTable(t.ctl),
 		galTermTable(t.gunzip), galTermTable(t.untar), gal.List(steps))
@@ -792,6 +805,22 @@ func (g *gen) variants(tag string) []variant {
 	add("file", "indexed package has an undecodable per-file checksum", Uc, "", whole("as indexed", Uc))
 	Q1 := mk("q1-sum", "Q", func(p *synthrepo.Pkg) { p.Files[3].Q1Checksum = true })
 	add("file", "indexed package records per-file checksums as Q1+base64", Q1, "", whole("as indexed", Q1))
+	// the forms of the record itself (checksumFromHeader): hex of either case, "Q1" + base64, undecodable values
+	UcHex := mk("upper-case-hex-sum", "UH", func(p *synthrepo.Pkg) {
+		p.Files[3].RawChecksum = strings.ToUpper(hex.EncodeToString(sha1sum(p.Files[3].Content)))
+	})
+	add("file", "indexed package records a per-file checksum in upper-case hex", UcHex, "", whole("as indexed", UcHex))
+	BadB64 := mk("q1-not-base64-sum", "QB", func(p *synthrepo.Pkg) { p.Files[3].RawChecksum = "Q1!!!" })
+	add("file", "indexed package records a Q1 per-file checksum that is not base64", BadB64, "", whole("as indexed", BadB64))
+	OddHex := mk("odd-length-hex-sum", "OH", func(p *synthrepo.Pkg) {
+		h := hex.EncodeToString(sha1sum(p.Files[3].Content))
+		p.Files[3].RawChecksum = h[:len(h)-1]
+	})
+	add("file", "indexed package records a per-file checksum of odd hex length", OddHex, "", whole("as indexed", OddHex))
+	Q1Wrong := mk("q1-sum-of-other-bytes", "QW", func(p *synthrepo.Pkg) {
+		p.Files[3].RawChecksum = "Q1" + base64.StdEncoding.EncodeToString(sha1sum([]byte("other bytes")))
+	})
+	add("file", "indexed package records a Q1 per-file checksum of other bytes", Q1Wrong, "", whole("as indexed", Q1Wrong))
 	Sy := mk("symlinks", "S", func(p *synthrepo.Pkg) {
 		p.Files = append(p.Files, synthrepo.File{Name: "usr/zlink", Type: tar.TypeSymlink, Linkname: "tool", Mode: 0o777},
 			synthrepo.File{Name: "usr/zlink2", Type: tar.TypeSymlink, Linkname: "tool", Mode: 0o777, NoChecksum: true})
@@ -1018,6 +1047,9 @@ func (g *gen) variants(tag string) []variant {
 			gen := pkg("entry-"+fl.name, false, append(rec(nil), synthrepo.RawHeader("usr/odd", 0, fl.flag, 0o644)...))
 			addS("types", "indexed package has "+fl.name+" with a checksum record", gen, q1(ctlOf(gen)), gen)
 		}
+		// a record under another spelling of the key is not the record: the file has NO checksum (and its body is altered)
+		lk := pkg("entry-record-under-lower-case-key", false, append(synthrepo.PaxMeta(map[string]string{"apk-tools.checksum.sha1": hex.EncodeToString(sha1sum(other))}), synthrepo.RawEntry("usr/odd", body, '0')...))
+		addS("types", "indexed package has a regular file whose record sits under a lower-case key", lk, q1(ctlOf(lk)), lk)
 		sl := pkg("entry-symlink-wrong-record", false, append(rec(other), synthrepo.RawHeaderLink("usr/odd", "tool", '2', 0o777)...))
 		addS("types", "indexed package has a symlink whose checksum record is not that of its target name", sl, q1(ctlOf(sl)), sl)
 		hl := pkg("entry-hardlink-with-record", false, append(rec(other), synthrepo.RawHeaderLink("usr/odd", "usr/tool", '1', 0o755)...))
